@@ -74,6 +74,26 @@ func c20Rules(tier string) []Rule {
 		POST{ID: "C20.POST3", Fn: "(*controllers/nodepool/registrationhealth.Controller).Reconcile", From: `^call \(opkg/status\.ConditionSet\)\.SetUnknown\(.*, "NodeRegistrationHealthy"\)$`,
 			Must: []string{`^call \(\*state/nodepoolhealth\.State\)\.SetStatus\(\$0\.npState, \$2\.ObjectMeta\.UID, 0\)$`}, Note: "SetUnknown is always followed by SetStatus(uid, StatusUnknown)"},
 		WMC{ID: "C20.WMC2", Sink: `^call \(opkg/status\.ConditionSet\)\.SetFalse\(.*, "NodeRegistrationHealthy"`, Allowed: []string{livU, "(*controllers/nodepool/registrationhealth.Controller).Reconcile"}, Required: []string{livU}},
+		// ---- one outcome per launch attempt: a success is recorded only in the pass that completes registration (hooks ready,
+		// Registered set True in the same pass — the entry test keeps later passes away), a failure only in the pass that
+		// gives the NodeClaim up (timeout elapsed, deletion follows); nobody else records
+		DOM{ID: "C20.ONCE1", Fn: "(*life.Registration).Reconcile", Sink: `^call \(\*life\.Registration\)\.updateNodePoolRegistrationHealth\(\$0, \$2\)$`, Max: 1, Gates: gates(
+			G(`+^\(\*opkg/status\.Condition\)\.IsUnknown\(\(opkg/status\.ConditionSet\)\.Get\(\(\*apis/v1\.NodeClaim\)\.StatusConditions\(\$2, nil\), "Registered"\)\)$`),
+			G(`+^lo\.IsEmpty\[cr/reconcile\.Result\]\(\(\*life\.Registration\)\.checkRegistrationHooks\(\$0, \$2\)#0\)$`),
+			G(`+^\(\*life\.Registration\)\.checkRegistrationHooks\(\$0, \$2\)#1 == nil$`),
+			G(`instr:^call \(opkg/status\.ConditionSet\)\.SetTrue\(\(\*apis/v1\.NodeClaim\)\.StatusConditions\(\$2, .*\), "Registered"\)$`),
+		), Note: "registration success is recorded once: with the hooks ready and Registered=True set in this pass"},
+		DOM{ID: "C20.ONCE2", Fn: "(*life.Liveness).Reconcile", Sink: `^call \(\*life\.Liveness\)\.updateNodePoolRegistrationHealth\(\$0, \$2\)$`, Min: 2, Max: 2, Gates: gates(
+			G(`-^\(\*opkg/status\.Condition\)\.IsTrue\(\(opkg/status\.ConditionSet\)\.Get\(\(\*apis/v1\.NodeClaim\)\.StatusConditions\(\$2, nil\), "Registered"\)\)$`),
+			G(`-^0 < \(life\.LaunchTimeout - iface:\(k8s\.io/utils/clock\.PassiveClock\)\.Since\(\$0\.clock, .*"Launched"\)\.LastTransitionTime\.Time\)\)$`,
+				`-^0 < \(900000000000 - iface:\(k8s\.io/utils/clock\.PassiveClock\)\.Since\(\$0\.clock, .*"Registered"\)\.LastTransitionTime\.Time\)\)$`),
+		), Note: "a failure is recorded only once a timeout elapsed for a NodeClaim that is not registered"},
+		POST{ID: "C20.ONCE3", Fn: "(*life.Liveness).Reconcile", From: `^call \(\*life\.Liveness\)\.updateNodePoolRegistrationHealth\(\$0, \$2\)$`, Min: 2,
+			Must:   []string{`^call \(\*life\.Liveness\)\.deleteNodeClaimForTimeout\(\$0, `},
+			Excuse: []string{`-^cr/client\.IgnoreNotFound\(\(\*life\.Liveness\)\.updateNodePoolRegistrationHealth\(\$0, \$2\)\) == nil$`},
+			Note:   "a recorded failure is followed by the deletion of the NodeClaim (it cannot time out again)"},
+		WMC{ID: "C20.WMC5", Sink: `^(call|go|defer) \(\*life\.(Registration|Liveness)\)\.updateNodePoolRegistrationHealth\(`,
+			Allowed: []string{"(*life.Registration).Reconcile", "(*life.Liveness).Reconcile"}, Required: []string{"(*life.Registration).Reconcile", "(*life.Liveness).Reconcile"}},
 		WMC{ID: "C20.WMC3", Sink: `^(call|go|defer) \(\*state/nodepoolhealth\.State\)\.Update\(`, Allowed: []string{regU, livU}, Required: []string{regU, livU}},
 		WMC{ID: "C20.WMC4", Sink: `^(call|go|defer) \(\*state/nodepoolhealth\.State\)\.DryRun\(`, Allowed: []string{regU, livU}, Required: []string{regU, livU}},
 		// the tracker consulted belongs to the NodePool that owns the NodeClaim
